@@ -191,6 +191,16 @@ def build_jobs(ck):
             r = eval_mod.evaluate(text, g2)
             return fmt('{}\t{}'.format(k, '%.4g' % v if v is not None else 'None') for k, v in r.items())
         jobs.append(Job('eval', 'wordseg.evaluate', ['-q', '@in.txt', '@gold.txt'], {'in.txt': fmt(text), 'gold.txt': fmt(g2)}, expect(fe2)))
+        # scores that are exactly 0 (zero numerator, non-zero denominator) and undefined scores (zero denominator)
+        # side by side: a text without internal boundaries, a gold with some, single-word utterances
+        wz = [''.join(rng.choice('abc') for _ in range(rng.randint(2, 4))) for _ in range(3)]
+        tz = [wz[0] + wz[1], wz[2]]
+        gz = [wz[0] + ' ' + wz[1], wz[2][:1] + ' ' + wz[2][1:]]
+        for tt, gg in ((tz, gz), (gz, tz), ([wz[0]], [wz[0]])):
+            def fe3(tt=tt, gg=gg):
+                r = eval_mod.evaluate(tt, gg)
+                return fmt('{}\t{}'.format(k, '%.4g' % v if v is not None else 'None') for k, v in r.items())
+            jobs.append(Job('eval', 'wordseg.evaluate', ['-q', '@in.txt', '@gold.txt'], {'in.txt': fmt(tt), 'gold.txt': fmt(gg)}, expect(fe3)))
         # ---- stats
         trees, tags = tagged_corpus(rng, n=rng.choice([2, 8, 9]))
         for js in (False, True):
